@@ -129,9 +129,9 @@ AllPlacedWhenDone == phase = "done" => \A f \in FS : Placed(f)
 \* the success guarantee is satisfiable: the post-condition fails only with an explicit position or
 \* when co-enabled widths exceed the length
 SuccessAny == (phase = "failed" /\ how = "any") => (~NoExplicitStart(FS) \/ ~Fits(FS, BLen))
-\* ... and the first-fit algorithm delivers it on hierarchies whose compatible scopes are nested
+\* ... and the first-fit algorithm delivers it on tree-shaped hierarchies
 SuccessFirstFit == (phase = "failed" /\ how = "firstfit")
-                      => (~NoExplicitStart(FS) \/ ~Fits(FS, BLen) \/ ~NestedOnly(FS))
+                      => (~NoExplicitStart(FS) \/ ~Fits(FS, BLen) \/ ~TreeShaped(FS))
 \* at this scope even with independent scopes crossing (needs five fields to break, see c08.py)
 SuccessFirstFitCross == (phase = "failed" /\ how = "firstfit") => (~NoExplicitStart(FS) \/ ~Fits(FS, BLen))
 \* every value that is accepted fits: a field never needs more than its explicit length
